@@ -35,6 +35,10 @@ def MK.isRmTokFree : MK → Bool
   | .rmTokFree _ => true
   | _ => false
 
+def MK.isRm1 : MK → Bool
+  | .rmFree1 => true
+  | _ => false
+
 /-- both mutexes released -/
 def Mgr.released (m : Mgr) : Mgr := { m with mgrOwner := none, wtfOwner := none }
 
@@ -99,7 +103,8 @@ def PC.mgrPhase : PC → Bool
 
 /-- static well-formedness: which continuation a manager sub-program may carry -/
 def PC.mgrOK : PC → Bool
-  | .u1 k | .u2 k _ | .u3 k _ | .gt1 k | .gt2 k | .f3 k | .f4 k _ _ | .f5 k | .f8 k | .f9 k _ | .f10 k => !k.isRmTokFree
+  | .u1 k | .u2 k _ | .u3 k _ | .gt1 k | .gt2 k => !k.isRmTokFree && !k.isRm1
+  | .f3 k | .f4 k _ _ | .f5 k | .f8 k | .f9 k _ | .f10 k => !k.isRmTokFree
   | _ => true
 
 set_option maxHeartbeats 1000000 in
